@@ -6,6 +6,9 @@ pub mod pretty;
 mod config;
 mod utils;
 
+#[cfg(typstyle_verif)]
+pub mod verif;
+
 pub use attr::AttrStore;
 pub use config::Config;
 use pretty::{ArenaDoc, PrettyPrinter};
